@@ -34,13 +34,12 @@ Proof. exact match_is_strmatch_refuted. Qed.
 Print Assumptions C13_match_is_strmatch_refuted.
 
 (* the guarded statement, for all patterns and all strings:
-   - the pattern is shorter than 65536 bytes (stateID is a uint16),
    - the string consists of bytes,
    - no non-negated character list of the pattern contains a range ending in ']'.
    Then Match neither panics nor runs out of fuel, Str_Match does not run out
    of fuel, and both give the same answer. *)
 Theorem C13_match_is_strmatch_partial : forall (p : str) (a : pattern) (s : str),
-  N.of_nat (length p) < 65536 -> is_bytes s -> range_to_rbracket p = false ->
+  is_bytes s -> range_to_rbracket p = false ->
   compile p = Ok (Some a) ->
   exists b, matchp a s = Ok b /\ str_match p s = Some b.
 Proof. exact match_is_strmatch_partial. Qed.
@@ -54,12 +53,12 @@ Print Assumptions C13_match_is_strmatch_partial.
    Both hold of every compiled pattern (the next two theorems), of Number(), and
    are preserved by Intersect (C13_intersect_exact). *)
 Theorem C13_compile_wf : forall (p : str) (a : pattern),
-  N.of_nat (length p) < 65536 -> compile p = Ok (Some a) -> wf a.
+  compile p = Ok (Some a) -> wf a.
 Proof. exact compile_wf. Qed.
 Print Assumptions C13_compile_wf.
 
 Theorem C13_compile_ranges : forall (p : str) (a : pattern),
-  N.of_nat (length p) < 65536 -> is_bytes p -> compile p = Ok (Some a) -> ranges_ok a.
+  is_bytes p -> compile p = Ok (Some a) -> ranges_ok a.
 Proof. exact compile_ranges. Qed.
 Print Assumptions C13_compile_ranges.
 
@@ -68,10 +67,9 @@ Proof. exact number_wf_ranges. Qed.
 Print Assumptions C13_number_wf.
 
 (* Intersect neither panics nor (it has no fuel) diverges; the result is again
-   well-formed; it matches a string iff both arguments do.  The size guard is
-   the uint16 of stateID: a state is allocated per pair of states. *)
+   well-formed; it matches a string iff both arguments do. *)
 Theorem C13_intersect_exact : forall a b : pattern,
-  wf a -> wf b -> nlen a * nlen b <= 65536 ->
+  wf a -> wf b ->
   exists i, intersect a b = Ok i /\ wf i /\ (ranges_ok a \/ ranges_ok b -> ranges_ok i) /\
     forall s, exists x y, matchp a s = Ok x /\ matchp b s = Ok y /\ matchp i s = Ok (x && y).
 Proof. exact intersect_exact_match. Qed.
@@ -106,13 +104,12 @@ Print Assumptions C13_c_number_is_grammar.
 
 (* ---------- mayMatchNumber ---------- *)
 
-(* for a pattern of at most 5040 bytes (5041 x 13 product states fit into a
-   uint16) without the "x-]" quirk: mayMatchNumber never panics; it reports an
+(* for a pattern without the "x-]" quirk: mayMatchNumber never panics; it reports an
    error exactly for malformed patterns; otherwise its answer is true exactly
    when some byte string is matched by the pattern (bmake's Str_Match) and is a
    C99 number *)
 Theorem C13_may_match_number_exact : forall p : str,
-  N.of_nat (length p) <= 5040 -> range_to_rbracket p = false ->
+  range_to_rbracket p = false ->
   exists b e, may_match_number p = Ok (b, e) /\
     (e = true <-> malformed p = true) /\
     (e = false ->
@@ -122,7 +119,7 @@ Print Assumptions C13_may_match_number_exact.
 
 (* what the caller relies on: "false" means no numeric word can be matched *)
 Theorem C13_may_match_number_sound : forall p : str,
-  N.of_nat (length p) <= 5040 -> range_to_rbracket p = false ->
+  range_to_rbracket p = false ->
   may_match_number p = Ok (false, false) ->
   forall s, is_bytes s -> str_match p s = Some true -> is_c_number s = false.
 Proof. exact may_match_number_sound. Qed.
@@ -157,10 +154,9 @@ Example C13_witness_intersect :
   exists a b c i j,
     compile ex_c = Ok (Some a) /\ compile ex_h = Ok (Some b) /\ compile ex_ac = Ok (Some c)
     /\ intersect a b = Ok i /\ can_match i = Ok false
-    /\ intersect a c = Ok j /\ can_match j = Ok true /\ matchp j [97; 46; 99] = Ok true
-    /\ (nlen a * nlen b <= 65536).
+    /\ intersect a c = Ok j /\ can_match j = Ok true /\ matchp j [97; 46; 99] = Ok true.
 Proof.
-  do 5 eexists. repeat (split; [vm_compute; reflexivity|]). vm_compute. discriminate.
+  do 5 eexists. repeat (split; [vm_compute; reflexivity|]). vm_compute. reflexivity.
 Qed.
 
 Example C13_witness_may_match_number :
